@@ -8,7 +8,7 @@ use crate::viol;
 use crate::world::*;
 use adlt::dlt::DltMessage;
 use adlt::filter::{Filter, FilterKind};
-use adlt::utils::remote_utils::{match_filters, StreamContext};
+use adlt::utils::remote_utils::{match_filters, process_stream_new_msgs, StreamContext};
 use adlt::utils::sync_sender_send_delay_if_full;
 use adlt_verif_seam::std as sstd;
 use serde::{Deserialize, Serialize};
@@ -140,7 +140,7 @@ impl Check for C12 {
         let log = slog::Logger::root(slog::Discard, slog::o!());
         let body = format!(r#"{{"filters":[{}]}}"#, c.filters.join(","));
         match StreamContext::from(&log, "stream", &body) {
-            Ok(sc) => {
+            Ok(mut sc) => {
                 for (i, m) in msgs.iter().enumerate() {
                     let got = match_filters(m, &sc.filters);
                     if got != kept_set[i] {
@@ -152,6 +152,33 @@ impl Check for C12 {
                     }
                 }
                 ctx.probe("set_matcher_evaluations");
+                // (c) the incremental stream index the server keeps: everything handed over at once or in two
+                // parts, processed in chunks of a size derived from the case (the server uses 3 M)
+                let chunk = [1usize, 2, 7, 30, 64, 3_000_000][(c.sched.seed % 6) as usize];
+                let cut = if msgs.is_empty() { 0 } else { (c.sched.seed / 7) as usize % (msgs.len() + 1) };
+                let mut avail = cut;
+                let mut guard = 0;
+                loop {
+                    let last = std::cmp::min(sc.all_msgs_last_processed_len, avail);
+                    process_stream_new_msgs(&mut sc, last, &msgs[last..avail], chunk);
+                    guard += 1;
+                    if sc.all_msgs_last_processed_len >= avail {
+                        if avail == msgs.len() {
+                            break;
+                        }
+                        avail = msgs.len();
+                    }
+                    if guard > 2 * msgs.len() + 10 {
+                        viol!("stream-index-no-progress", "process_stream_new_msgs made no progress: processed {} of {} (chunk {})", sc.all_msgs_last_processed_len, avail, chunk);
+                    }
+                }
+                if sc.filters_active {
+                    let want: Vec<usize> = (0..msgs.len()).filter(|i| kept_set[*i]).collect();
+                    if sc.filtered_msgs != want {
+                        viol!("stream-index-rule", "stream index after processing {} messages in chunks of {} holds {} positions ({:?}...) but the rule keeps {} ({:?}...); filters {:?}", msgs.len(), chunk, sc.filtered_msgs.len(), &sc.filtered_msgs[..std::cmp::min(6, sc.filtered_msgs.len())], want.len(), &want[..std::cmp::min(6, want.len())], c.filters);
+                    }
+                    ctx.probe("stream_index_compared");
+                }
             }
             Err(e) => viol!("stream-context-rejected", "StreamContext::from rejected valid filters: {}", e),
         }
@@ -277,7 +304,7 @@ impl Check for C12 {
         out
     }
     fn rule() -> &'static str {
-        "one run = a filter set of 0-6 generated filters (positive/negative/marker/event, enabled or not, negated or not, overlapping ECU/APID/CTID literal+regex, level bounds, payload text/regex with case flag, message type) x a simulated message stream (<= 200 messages); the real stream filter stage runs as a shuttle thread between bounded channels (capacity and pacing knobs, consumer drop) and the real set matcher runs on the set StreamContext::from builds; both are compared with the stated combination rule applied to the real per-filter verdicts; non-trivial = the set keeps some and drops some messages; distinct = hash of (filters, #messages, schedule seed)"
+        "one run = a filter set of 0-6 generated filters (positive/negative/marker/event, enabled or not, negated or not, overlapping ECU/APID/CTID literal+regex, level bounds, payload text/regex with case flag, message type) x a simulated message stream (<= 200 messages); the real stream filter stage runs as a shuttle thread between bounded channels (capacity and pacing knobs, consumer drop) and the real set matcher runs on the set StreamContext::from builds, and the server's incremental stream index (process_stream_new_msgs, chunk sizes 1..3M, one or two hand-overs) is built over the same messages; both are compared with the stated combination rule applied to the real per-filter verdicts; non-trivial = the set keeps some and drops some messages; distinct = hash of (filters, #messages, schedule seed)"
     }
     fn assumptions() -> Vec<&'static str> {
         vec!["per-filter verdicts come from the real Filter::matches (its semantics belong to C11, which is not applicable to this technique); only the combination rule, order preservation and the counters are decided here"]
@@ -289,6 +316,6 @@ impl Check for C12 {
         vec!["producer/consumer threads", "scheduler and channels (shuttle + seam)", "message generator"]
     }
     fn required_reach() -> Vec<&'static str> {
-        vec!["set_has_positive", "set_has_negative", "set_has_event", "set_has_marker", "set_has_disabled", "consumer_disappears", "try_send_full"]
+        vec!["set_has_positive", "set_has_negative", "set_has_event", "set_has_marker", "set_has_disabled", "consumer_disappears", "try_send_full", "stream_index_compared"]
     }
 }
